@@ -422,9 +422,59 @@ func c16Implicit(c *Ctx) {
 	}
 }
 
+// c16Routes: accepted rules, then paths instantiated from their templates — also where a variable's
+// value spells a sibling literal, and where a kind-"*" binding shares a path with a verb binding.
+func c16Routes(c *Ctx) {
+	var got string
+	mk := func(name string) func(ctx context.Context, in *dynamicpb.Message) (proto.Message, error) {
+		return func(ctx context.Context, in *dynamicpb.Message) (proto.Message, error) {
+			got = name
+			return dynamicpb.NewMessage(in.Descriptor().ParentFile().Messages().ByName("Reply")), nil
+		}
+	}
+	specs := []*MethodSpec{
+		{Name: "One", In: "Req", Out: "Reply", Unary: mk("One"), Rule: getRule("/c16i/{name}/one")},
+		{Name: "Deep", In: "Req", Out: "Reply", Unary: mk("Deep"), Rule: getRule("/c16i/a/b/{i32}")},
+		{Name: "Any", In: "Req", Out: "Reply", Unary: mk("Any"), Rule: customRule("*", "/c16i/any/thing", "*")},
+		{Name: "Get", In: "Req", Out: "Reply", Unary: mk("Get"), Rule: getRule("/c16i/any/thing")},
+		{Name: "Lit", In: "Req", Out: "Reply", Unary: mk("Lit"), Rule: postRule("/c16i/files/large", "*")},
+		{Name: "Var", In: "Req", Out: "Reply", Unary: mk("Var"), Rule: getRule("/c16i/files/{name}")},
+	}
+	for _, order := range [][]int{{0, 1, 2, 3, 4, 5}, {5, 4, 3, 2, 1, 0}, {1, 0, 3, 2, 5, 4}} {
+		var ms []*MethodSpec
+		for _, i := range order {
+			ms = append(ms, specs[i])
+		}
+		fx, err := NewFixture(ms, nil)
+		if err != nil || fx.RegErr != nil || fx.RegPanic != nil {
+			c.SpecFail("api-routes", fmt.Sprint("order ", order), fmt.Sprint(err, fx.RegErr, fx.RegPanic), "registered", "C16/api/valid-rules-refused", "valid rules are refused")
+			continue
+		}
+		for _, p := range []struct{ verb, path, want string }{
+			{"GET", "/c16i/x/one", "One"}, {"GET", "/c16i/a/one", "One"}, {"GET", "/c16i/any/one", "One"}, {"GET", "/c16i/files/one", "Var"},
+			{"GET", "/c16i/a/b/7", "Deep"}, {"GET", "/c16i/any/thing", "Get"}, {"POST", "/c16i/any/thing", "Any"}, {"DELETE", "/c16i/any/thing", "Any"},
+			{"POST", "/c16i/files/large", "Lit"}, {"GET", "/c16i/files/large", "Var"}, {"GET", "/c16i/files/a", "Var"},
+		} {
+			got = ""
+			var r = httptest.NewRequest(p.verb, p.path, nil)
+			if p.verb != "GET" {
+				r = httptest.NewRequest(p.verb, p.path, strings.NewReader("{}"))
+			}
+			rec, pn := fx.Serve(r)
+			in := fmt.Sprintf("%s %s (registration order %v)", p.verb, p.path, order)
+			c.Eval("api-routes", in, true)
+			if pn != nil || rec.Code != 200 || got != p.want {
+				c.SpecFail("api-routes", in, fmt.Sprintf("%d handler=%q panic=%v %s", rec.Code, got, pn, truncS(rec.Body.String(), 80)), "method "+p.want, "C16/api/instantiated-path-does-not-route", "a path instantiated from an accepted template does not route to its method")
+			}
+		}
+		fx.Close()
+	}
+}
+
 func c16API(c *Ctx) {
 	c16Fields(c)
 	c16Implicit(c)
+	c16Routes(c)
 	echo := func(ctx context.Context, in *dynamicpb.Message) (proto.Message, error) {
 		return dynamicpb.NewMessage(in.Descriptor().ParentFile().Messages().ByName("Reply")), nil
 	}
